@@ -972,7 +972,77 @@ def c07(prop, tier):
                                           "non-termination is observed as a missed deadline of 120 s per record"])
 
 
+def c17(prop, tier):
+    """Translation validation of the literal extractor's output by TLC against the pattern's bounded language (spec/MC_Literal.tla)."""
+    t0 = time.time()
+    q = tier == "quick"
+    vh = vlib.build_harness()
+    work = tempfile.mkdtemp(prefix="vC17_")
+    try:
+        machinery = []
+        jobs = [(fam, dict(c, Budget=8, LCap=1)) for fam, c in search_jobs(tier)]
+        states = trans = 0
+
+        def mk(fam, consts, i):
+            def run():
+                out = os.path.join(work, f"gen_{i}.out")
+                return out, vlib.run_tlc("MC_Search", consts, SEARCH_CFG, out, workers=2, timeout=1800)
+            return run
+        gens = []
+        for out, r in vlib.run_parallel([mk(f, c, i) for i, (f, c) in enumerate(jobs)], 8):
+            if r.error or r.violation:
+                machinery.append(f"MC_Search: {(r.error or r.violation)[:300]}")
+                continue
+            states += r.distinct
+            trans += r.generated
+            gens.append(out)
+        lit = os.path.join(work, "literals.ndjson")
+        p = subprocess.run([vh, "litexport", "-in", ",".join(gens), "-out", lit, "-ncfg", "6" if q else "0"], capture_output=True, text=True, timeout=2400)
+        if p.returncode != 0:
+            raise Machinery("litexport: " + p.stderr[-500:])
+        chk = os.path.join(work, "check.out")
+        scratch = tempfile.mkdtemp(prefix="vtlc_")
+        try:
+            shutil.copy(lit, os.path.join(scratch, "literals.ndjson"))
+            r1 = vlib.run_tlc("MC_Literal", {"LitFile": "literals.ndjson", "Shard": vlib.seed() % 2 if q else 0, "NShards": 2 if q else 1,
+                                             "Budget": 3000 if q else 6000, "LCap": 6 if q else 7, "XLen": 2}, SEARCH_CFG, chk,
+                              workers=16, timeout=3000, heap="12g", scratch=scratch)
+        finally:
+            shutil.rmtree(scratch, ignore_errors=True)
+        if r1.error or r1.violation:
+            raise Machinery(f"MC_Literal: {(r1.error or r1.violation)[:600]}")
+        states += r1.distinct
+        trans += r1.generated
+        rp, fp = os.path.join(work, "r.json"), os.path.join(work, "f.ndjson")
+        p = subprocess.run([vh, "litconfirm", "-in", chk, "-report", rp, "-fail", fp], capture_output=True, text=True, timeout=2400)
+        if p.returncode != 0:
+            raise Machinery("litconfirm: " + p.stderr[-500:])
+        rep = vlib.read_report(rp)
+        ex = rep.get("extra") or {}
+        kf, known_hit, violations, total = vlib.classify([fp], prop)
+        coverage = {"programs": ex.get("patterns_checked", rep.get("patterns", 0)), "disagreements_checked": total + rep.get("spec_gaps", 0),
+                    "samples": rep.get("samples") or [{"note": "none"}], "states": states, "transitions": trans,
+                    "evaluations": ex.get("necessity_checks_by_tlc", rep.get("calls", 0)), "distinct_nontrivial": ex.get("nonvacuous_sequences_checked", 0),
+                    "rule": "one program = the real extractor's four sequences for one TLC-enumerated pattern under a grid of extractor limits "
+                            "(7 configurations per pattern quick, 63 thorough); TLC rebuilds the syntax tree, enumerates the bounded language "
+                            "(in-context match texts up to 6-7 symbols) with the reference semantics and checks necessity of every non-empty, "
+                            "non-partial sequence on every match text, and the two obligations of Complete literals; every violation is re-confirmed "
+                            "with regexp and a fresh extractor run; distinct = non-vacuous sequences checked",
+                    "extractor_stats": ex, "spec_gaps": rep.get("spec_gaps", 0), "failing_calls_total": total, "exhaustive": not machinery}
+        machinery += rep.get("machinery_errors") or []
+        return vlib.finish(prop, tier, "translation_validation", coverage, known_hit, violations, t0, kf,
+                           assumptions=["the bounded language is complete only up to the reported length (accelerated search cross-checked against EndsP)",
+                                        "regexp arbitrates every reported witness (three-way)"], machinery=machinery)
+    finally:
+        keep = os.environ.get("VERIF_KEEP")
+        if keep and os.path.exists(os.path.join(work, "f.ndjson")):
+            os.makedirs(keep, exist_ok=True)
+            shutil.copy(os.path.join(work, "f.ndjson"), os.path.join(keep, f"{prop}_fail_0.ndjson"))
+        shutil.rmtree(work, ignore_errors=True)
+
+
 REGISTRY = {
+    "C17": c17,
     "C07": c07,
     "C18": c18,
     "C05": c05,
